@@ -744,6 +744,12 @@ class _RWHooks(sc.SearchHooks):
             return Const(None)
         return super().on_call(node, fname, args, kwargs, st, eng)
 
+    def on_listcomp(self, node, st, eng):
+        pts = sc.reordered_points(node)
+        if pts is not None and pts in st.env:
+            return Obj(f"PERM({vkey(st.env[pts])})")  # the same boreholes, reordered in place (no helper)
+        return None
+
     def _perms(self, eng):
         if not hasattr(self, "_perm_tab"):
             self._perm_tab = sc.permutation_helpers(eng.prog, eng.fi)
